@@ -5,17 +5,19 @@
    two versions and dumps each maximal sequence as a scenario class. *)
 EXTENDS Naturals, Sequences, TLC, Json
 CONSTANTS MaxOps
-Ops == {"get", "getslow", "reload", "pair", "pressure", "abortfetch"}
+Ops == {"get", "getslow", "reload", "pair", "pressure", "abortfetch", "reval"}
 VARIABLES stored, nextv, hist, readers
 vars == <<stored, nextv, hist, readers>>
 Init == stored = 0 /\ nextv = 1 /\ hist = <<>> /\ readers = {}
 \* get: hit if stored, else fetch+store; getslow: same but the origin writes slowly (overlapping readers possible)
 \* reload: client no-cache forces a new version that replaces the stored one; pair: two concurrent gets;
+\* reval: the client forces a revalidation (max-age=0); the origin confirms the stored version with a 304 whose header block
+\* differs in size from the stored one (the stored header is rewritten in place, the body must stay that version's), then a get;
 \* pressure: unrelated traffic that may evict the entry; abortfetch: origin aborts mid-body (nothing complete is stored)
 Do(op) ==
   /\ Len(hist) < MaxOps
   /\ hist' = Append(hist, op)
-  /\ CASE op \in {"get", "getslow", "pair"} ->
+  /\ CASE op \in {"get", "getslow", "pair", "reval"} ->
             IF stored = 0 THEN stored' = nextv /\ nextv' = nextv + 1 /\ readers' = readers \cup {nextv}
             ELSE UNCHANGED <<stored, nextv>> /\ readers' = readers \cup {stored}
        [] op = "reload" -> stored' = nextv /\ nextv' = nextv + 1 /\ readers' = readers \cup {nextv}
